@@ -416,7 +416,12 @@ class Background2D:
 
         Boxes that are completely masked are always excluded.
         """
-        return (1 - (self.exclude_percentile / 100.0)) * self._box_npixels
+        # (100 - p) * npix / 100 is exact whenever the threshold is an
+        # integer, unlike (1 - p / 100) * npix (e.g., p=70, npix=10 gave
+        # 3.0000000000000004 and excluded a box with exactly 70%
+        # masked pixels)
+        return ((100.0 - self.exclude_percentile) * self._box_npixels
+                / 100.0)
 
     def _sigmaclip_boxes(self, data, axis):
         """
